@@ -255,7 +255,7 @@ def landmarks(method: str) -> list[str]:
         "99": ["0395999999", "0396000000", "0396000001", "0400000000", "0499999998",
                "0499999999", "0500000000", "0450000000"],
         "68": ["0399999999", "0400000000", "0499999999", "0500000000", "1009000000",
-               "1000000000", "0001234567", "4009123456"],
+               "1000000000", "0001234567", "4009123456", "8889654328", "8889654320", "0987654324"],
         "24": ["3000000000", "4111111111", "5222222222", "6333333333", "9001234567",
                "9990000001", "0000000001", "2000000000"],
         "63": ["1000000000", "0000123456", "0012345600"],
@@ -286,7 +286,9 @@ def feature(method: str, s: str):
     if method == "61":
         return "ninth-8" if s[8] == "8" else "plain"
     if method == "68":
-        return "ten-digits" if s[0] != "0" else "exempt-range" if 400_000_000 <= n <= 499_999_999 else "plain"
+        if s[0] != "0":
+            return "ten-digits-4th-9" if s[3] == "9" else "ten-digits-other"
+        return "exempt-range" if 400_000_000 <= n <= 499_999_999 else "plain"
     if method == "88":
         return "third-9" if s[2] == "9" else "third-0" if s[2] == "0" else "third-1-8"
     if method == "99":
